@@ -12,9 +12,9 @@
    to the value the generated JavaScript expression has in MiniJS, for every
    state / environment pair related by env_rel (each Soy variable is in the
    generated variable the generator's scope maps it to, or in opt_data).
-   Of the STATEMENT stages print / if / let / switch / foreach / for-range / css and call (value parameters) are proved
-   (below), and the template wrapper with a theorem for every template of a program built from these stages; calls with
-   content parameters, msg and the file level are NOT: they are covered by translation validation only
+   Of the STATEMENT stages print / if / let / switch / foreach / for-range / css and call (all forms: data, value and
+   content parameters) are proved (below), and the template wrapper with a theorem for every template of a program built
+   from these stages; msg and the file level are NOT: they are covered by translation validation only
    (go/cmd/soyverif/c04.go: every generated program is translated by the real
    soyjs.Write, run by node with soyutils.js and compared with the Go render).
    Stages kept for the record:
@@ -34,11 +34,10 @@
                                   2^53, same loop functions -- proved below (xInit_n / xStep_n / xLimit_n =
                                   Math.max(0, Math.ceil((n - xInit_n) / xStep_n)), x_n = xInit_n + xIndex_n * xStep_n)
      gen_correct_partial_css    : {css sfx} / {css e, sfx} with a scalar e -- proved below (same step)
-     gen_correct_partial_call   : {call t}, data="all", data="$e" (a map with identifier keys), {param k: e /} -- proved below: the
-                                  same simulation step relative to a context that says what a callee writes on both sides,
-                                  and (C04_go_call_correct, C04_js_call_correct) that context discharged for every program
-                                  by induction on the call depth (recursion included); {param k}..{/param} (content
-                                  parameters) -- not proved
+     gen_correct_partial_call   : {call t}, data="all", data="$e" (a map with identifier keys), {param k: e /} and
+                                  {param k}..{/param} -- proved below: the same simulation step relative to a context that says
+                                  what a callee writes on both sides, and (C04_go_call_correct, C04_js_call_correct) that
+                                  context discharged for every program by induction on the call depth (recursion included)
      gen_correct_partial_template : the template wrapper (function header, opt_data defaulting, var output, return) and
                                   with it a theorem for every template of a program of the proved stages -- proved below
                                   (C04_gen_correct_partial_template; the entry point Execute: C04_go_render_correct); the
@@ -488,13 +487,18 @@ Proof. vm_compute. repeat split; reflexivity. Qed.
 (* ================================================================== *)
 (* the call stage and the template wrapper *)
 
-(* {call name}, {call name data="all"}, {call name data="$e"} (e a map whose keys are identifiers) with value parameters
-   {param k: e /}: the Go renderer builds the callee's scope -- a fresh frame that takes the parameters, over nothing,
-   over the frames alldata() returns, or over the map -- and enters the callee; the JavaScript is
+(* {call name}, {call name data="all"}, {call name data="$e"} (e a map whose keys are identifiers) with parameters
+   {param k: e /} and {param k}..{/param} (k an identifier): the Go renderer builds the callee's scope -- a fresh frame that
+   takes the parameters (a content parameter is rendered by renderBlock into a buffer of its own and passed as a string),
+   over nothing, over the frames alldata() returns, or over the map -- and enters the callee; the JavaScript is
+     [var param_n = ''; the block's statements appending to param_n]   per content parameter, in order, BEFORE the call,
      buf += name(D, opt_sb, opt_ijData);      D = {} | opt_data | e
-     buf += name(soy.$$augmentMap(D, {k: e, ..}), opt_sb, opt_ijData);      with parameters
-   (MiniJS: an object without prototype chain, so augmentMap is an update of the base object's association list). The
-   same simulation step as the other stages, relative to the context cc. *)
+     buf += name(soy.$$augmentMap(D, {k: e, k2: param_n, ..}), opt_sb, opt_ijData);      with parameters
+   (the value parameters are therefore evaluated after every content block has run, while the Go renderer evaluates the
+   parameters in order: the proof shows that the blocks leave every variable of the caller alone -- the frame property --
+   and that param_n still holds its text when the object literal is evaluated; MiniJS: an object without prototype
+   chain, so augmentMap is an update of the base object's association list).  The same simulation step as the other
+   stages, relative to the context cc. *)
 Theorem C04_gen_correct_partial_call : forall cf o cc lv st je jst name d ps fuel text env' old,
   c_oblig cf = [] -> callctx_ok cf o cc -> (cc_fuel cc + sdepth (SCall name d ps) < fuel)%nat -> sim cf cc st je jst old ->
   swf lv (SCall name d ps) = true -> lvok lv (j_scope jst) ->
@@ -566,33 +570,36 @@ Print Assumptions C04_go_render_correct.
 
 (* non-vacuity: two templates; .main prints $x, calls .item with data="all" and a parameter, then calls itself on the map $next
    while there is one (recursion through data="$e"):
-     {template .main}{$x}[{call .item data="all"}{param y: $x + 1 /}{/call}]{if $next}{call .main data="$next" /}{/if}{/template}
-     {template .item}{$x}-{$y}{/template} *)
+     {template .main}{$x}[{call .item data="all"}{param y: $x + 1 /}{param z}<{$x}{/param}{/call}]{if $next}{call .main data="$next" /}{/if}{/template}
+     {template .item}{$x}-{$y}{$z|noAutoescape}{/template} *)
 Definition ex_main : ctmpl :=
   {| ct_name := b "ns.main"; ct_ns_ae := 1; ct_ae := 0; ct_allopt := false;
      ct_body := BCons (SPrint (CVar (b "x") []) [])
                (BCons (SRaw (b "["))
-               (BCons (SCall (b "ns.item") DAll [(b "y", CBin OAdd (CVar (b "x") []) (CInt 1))])
+               (BCons (SCall (b "ns.item") DAll (PVal (b "y") (CBin OAdd (CVar (b "x") []) (CInt 1)) (PCont (b "z") (BCons (SRaw (b "<")) (BCons (SPrint (CVar (b "x") []) []) BNil)) PNil)))
                (BCons (SRaw (b "]"))
-               (BCons (SIf (CVar (b "next") []) (BCons (SCall (b "ns.main") (DExpr (CVar (b "next") [])) []) BNil) ENone) BNil)))) |}.
+               (BCons (SIf (CVar (b "next") []) (BCons (SCall (b "ns.main") (DExpr (CVar (b "next") [])) PNil) BNil) ENone) BNil)))) |}.
 Definition ex_item : ctmpl :=
   {| ct_name := b "ns.item"; ct_ns_ae := 1; ct_ae := 0; ct_allopt := false;
-     ct_body := BCons (SPrint (CVar (b "x") []) []) (BCons (SRaw (b "-")) (BCons (SPrint (CVar (b "y") []) []) BNil)) |}.
+     ct_body := BCons (SPrint (CVar (b "x") []) []) (BCons (SRaw (b "-")) (BCons (SPrint (CVar (b "y") []) []) (BCons (SPrint (CVar (b "z") []) [PNoAutoescape]) BNil))) |}.
 Definition ex_prog : list ctmpl := [ex_main; ex_item].
 Definition ex_data : list (bstr * value) := [(b "next", VMap 2 [(b "x", VInt 7)]); (b "x", VInt 4)].
 Definition ex_cf : cfg :=
   {| c_reg := {| r_templates := c04_templates ex_prog; r_sources := []; r_files := [] |}; c_ij := None; c_oblig := []; c_msgs := None |}.
 Example C04_call_nonvacuous :
-  c04_tout None go_print_text ex_prog 3 (b "ns.main") (fun q => assoc_s q ex_data) = Some (b "4[4-5]7[7-8]")
-  /\ c04_jcall (c04_jprog ex_prog (fun _ => 0)) 3 (b "ns.main") (to_js (VMap 1 ex_data)) JUndef = Ok (b "4[4-5]7[7-8]")
-  /\ (let r := render ex_cf 40 (b "ns.main") 1 ex_data None None 10 in (rr_outcome r, concat_b (rr_writes r))) = (Ok tt, b "4[4-5]7[7-8]")
+  c04_tout None go_print_text ex_prog 3 (b "ns.main") (fun q => assoc_s q ex_data) = Some (b "4[4-5<4]7[7-8<7]")
+  /\ c04_jcall (c04_jprog ex_prog (fun _ => 0)) 3 (b "ns.main") (to_js (VMap 1 ex_data)) JUndef = Ok (b "4[4-5<4]7[7-8<7]")
+  /\ (let r := render ex_cf 40 (b "ns.main") 1 ex_data None None 10 in (rr_outcome r, concat_b (rr_writes r))) = (Ok tt, b "4[4-5<4]7[7-8<7]")
   /\ render_chunks is_print_tbl (c04_tprint (template_header_line {| o_fmt := ES5; o_msgs := None; o_order := fun l => l |} (b "ns.main")) false (c04_jbody ex_main 0)) = b
 "
 ns.main = function(opt_data, opt_sb, opt_ijData) {
   var output = '';
   output += soy.$$escapeHtml(opt_data.x);
   output += '[';
-  output += ns.item(soy.$$augmentMap(opt_data, {y: ((opt_data.x) + (1))}), opt_sb, opt_ijData);
+  var param_1 = '';
+  param_1 += '\u003C';
+  param_1 += soy.$$escapeHtml(opt_data.x);
+  output += ns.item(soy.$$augmentMap(opt_data, {y: ((opt_data.x) + (1)), z: param_1}), opt_sb, opt_ijData);
   output += ']';
   if (opt_data.next) {
     output += ns.main(opt_data.next, opt_sb, opt_ijData);
